@@ -318,6 +318,12 @@ def eq(ctx: Ctx, a, b):
             if a.cls is not b.cls:
                 return False
             return a.e == b.e
+        members = getattr(a.cls, "members", None)
+        if members is not None:  # option set of sentinel objects (h11 states)
+            for i, m in enumerate(members):
+                if m is b:
+                    return a.e == i
+            return False
         if isinstance(b, a.cls):
             return a.e == list(a.cls).index(b)
         return False
